@@ -793,10 +793,176 @@ Fixpoint assemble (i : N) (bs : list (range * list range)) (ws : list (range * l
   | _, _ => []
   end.
 
-(* outcome of the block walkers: the transaction locations and the iterations made;
-   XUnmodelled = the Byron main block / Dijkstra layouts (library calls and
-   additions only; not transcribed here, see C07) *)
-Inductive xres := XDone (txs : list txloc) (ticks : nat) | XUnmodelled.
+(* outcome of the block walkers: the transaction locations and the iterations made *)
+Inductive xres := XDone (txs : list txloc) (ticks : nat).
+
+(* ---- Byron main blocks: [header, [tx_payload, ssc, dlg, upd], extra], tx_payload = [[body, witnesses], ...] ---- *)
+Fixpoint walk_ranges (pos : N) (items : list bytes) : list range :=
+  match items with
+  | [] => []
+  | x :: r => (pos, u32 (nlen x)) :: walk_ranges (u32 (pos + u32 (nlen x))) r
+  end.
+
+(* extractByronOutputOffsets: tx body = [inputs, outputs, attributes]; bodyParts[0], bodyParts[1] after len >= 2 *)
+Definition byron_output_offsets (body : bytes) (body_off : N) : out (list range * nat) :=
+  if Nat.ltb (length body) 2 then Val ([], 0%nat) else
+  match raw_list body with
+  | None => Val ([], 0%nat)
+  | Some parts =>
+      if Nat.ltb (length parts) 2 then Val ([], 0%nat) else
+      match parts with
+      | p0 :: p1 :: _ =>
+          match raw_list p1 with
+          | None => Val ([], 0%nat)
+          | Some outs =>
+              if Nat.eqb (length outs) 0 then Val ([], 0%nat) else
+              bh <- array_header_size_of body (length parts) ;;
+              let outs_abs := u32 (u32 (body_off + bh) + u32 (nlen p0)) in
+              oh <- array_header_size_of p1 (length outs) ;;
+              Val (walk_ranges (u32 (outs_abs + oh)) outs, length outs)
+          end
+      | _ => Panic
+      end
+  end.
+
+(* the loop over the pairs: txPair[0], txPair[1] after len >= 2 *)
+Fixpoint byron_pairs (pairs : list bytes) (pos : N) : out (list txloc * nat) :=
+  match pairs with
+  | [] => Val ([], 0%nat)
+  | raw :: r =>
+      match raw_list raw with
+      | None => Err
+      | Some tx_pair =>
+          if Nat.ltb (length tx_pair) 2 then Err else
+          match tx_pair with
+          | b :: w :: _ =>
+              ph <- array_header_size_of raw (length tx_pair) ;;
+              let bstart := u32 (pos + ph) in
+              let wstart := u32 (bstart + u32 (nlen b)) in
+              o <- byron_output_offsets b bstart ;;
+              rest <- byron_pairs r (u32 (pos + u32 (nlen raw))) ;;
+              Val (mk_txloc (bstart, u32 (nlen b)) (wstart, u32 (nlen w)) zero_range (fst o) [] :: fst rest,
+                   S (snd o + snd rest))
+          | _ => Panic
+          end
+      end
+  end.
+
+(* extractByronTransactionOffsets: blockArray[0], blockArray[1] (three elements), bodyParts[0] (four) *)
+Definition byron_offsets (data : bytes) (blk : list bytes) : out xres :=
+  match blk with
+  | b0 :: b1 :: _ =>
+      ahs <- array_header_size_of data (length blk) ;;
+      let body_off := u32 (ahs + u32 (nlen b0)) in
+      match raw_list b1 with
+      | None => Err
+      | Some parts =>
+          if negb (Nat.eqb (length parts) 4) then Err else
+          match parts with
+          | p0 :: _ =>
+              match raw_list p0 with
+              | None => Err
+              | Some payload =>
+                  if Nat.eqb (length payload) 0 then Val (XDone [] 0) else
+                  bah <- array_header_size_of b1 (length parts) ;;
+                  ph <- array_header_size_of p0 (length payload) ;;
+                  r <- byron_pairs payload (u32 (u32 (body_off + bah) + ph)) ;;
+                  Val (XDone (fst r) (snd r))
+              end
+          | _ => Panic
+          end
+      end
+  | _ => Panic
+  end.
+
+(* ---- Dijkstra blocks: [header, [invalid/nil, transactions, leios/nil, peras/nil]] ---- *)
+(* cborArrayInfo + `count < 0 && !indefinite` + `!indefinite && count != n`: the header size *)
+Definition info_ok (data : bytes) (n : N) : out nat :=
+  r <- array_info data ;;
+  let '(cnt, hs, indef) := r in
+  if info_invalid r then Err
+  else if negb indef && negb (count_of cnt =? n) then Err
+  else Val hs.
+(* DecodeRaw on the decoder over `stream` at pos: the bytes and the new position *)
+Definition sd_raw (stream : bytes) (pos : nat) : out (bytes * nat) :=
+  match sd_skip stream pos with
+  | None => Err
+  | Some (_, n) => s <- slice stream pos (pos + n) ;; Val (s, (pos + n)%nat)
+  end.
+
+(* for i := range txs { txsDecoder.DecodeRaw; cbor.Decode(rawTx, &txParts); cborArrayInfo(rawTx);
+   rawTx[txHeaderSize:]; three DecodeRaw; auxBytes[0] under len == 1; the two walkers } *)
+Fixpoint dijkstra_txs (fuel : nat) (txs : list bytes) (stream : bytes) (pos : nat) (base : N) : out (list txloc * nat) :=
+  match txs with
+  | [] => Val ([], 0%nat)
+  | _ :: r =>
+      t <- sd_raw stream pos ;;
+      let '(raw_tx, pos') := t in
+      let tx_pos := u32 (base + N.of_nat pos) in
+      match raw_list raw_tx with
+      | None => Err
+      | Some parts =>
+          if negb (Nat.eqb (length parts) 3) then Err else
+          ths <- info_ok raw_tx 3 ;;
+          st <- slice_from raw_tx ths ;;
+          b <- sd_raw st 0 ;;
+          let '(body, p1) := b in
+          w <- sd_raw st p1 ;;
+          let '(wit, p2) := w in
+          a <- sd_raw st p2 ;;
+          let '(aux, _) := a in
+          let bstart := u32 (tx_pos + N.of_nat ths) in
+          let wstart := u32 (tx_pos + N.of_nat ths + N.of_nat p1) in
+          let astart := u32 (tx_pos + N.of_nat ths + N.of_nat p2) in
+          is_null <- (if Nat.eqb (length aux) 1 then x <- idx aux 0 ;; Val (x =? 246) else Val false) ;;
+          let meta := if (is_null : bool) then zero_range else (astart, u32 (nlen aux)) in
+          o <- output_offsets true fuel body bstart ;;
+          c <- witness_components fuel wit wstart ;;
+          rest <- dijkstra_txs fuel r stream pos' base ;;
+          Val (mk_txloc (bstart, u32 (nlen body)) (wstart, u32 (nlen wit)) meta (fst o) (fst c) :: fst rest,
+               S (snd o + snd c + snd rest))
+      end
+  end.
+
+(* extractDijkstraTransactionOffsets *)
+Definition dijkstra_offsets (fuel : nat) (data : bytes) (blk : list bytes) : out xres :=
+  if negb (Nat.eqb (length blk) 2) then Err else
+  top_hs <- info_ok data 2 ;;
+  match blk with
+  | _ :: b1 :: _ =>
+      match raw_list b1 with
+      | None => Err
+      | Some parts =>
+          if negb (Nat.eqb (length parts) 4) then Err else
+          st <- slice_from data top_hs ;;                               (* cborData[topHeaderSize:] *)
+          match sd_skip st 0 with
+          | None => Err
+          | Some (_, hl) =>
+              b <- sd_raw st hl ;;
+              let '(body_raw, _) := b in
+              let block_body_off := u32 (N.of_nat top_hs + N.of_nat hl) in
+              bhs <- info_ok body_raw 4 ;;
+              bst <- slice_from body_raw bhs ;;                         (* bodyRaw[bodyHeaderSize:] *)
+              match sd_skip bst 0 with
+              | None => Err
+              | Some (_, il) =>
+                  t <- sd_raw bst il ;;
+                  let '(txs_raw, _) := t in
+                  let txs_off := u32 (block_body_off + N.of_nat bhs + N.of_nat il) in
+                  match raw_list txs_raw with
+                  | None => Err
+                  | Some txs =>
+                      if Nat.eqb (length txs) 0 then Val (XDone [] 0) else
+                      ths <- info_ok txs_raw (N.of_nat (length txs)) ;;
+                      tst <- slice_from txs_raw ths ;;                  (* txsRaw[txsHeaderSize:] *)
+                      r <- dijkstra_txs fuel txs tst 0 (u32 (txs_off + N.of_nat ths)) ;;
+                      Val (XDone (fst r) (snd r))
+                  end
+              end
+          end
+      end
+  | _ => Panic
+  end.
 
 (* ExtractTransactionOffsets (streaming = false) and StreamingBlockDecoder.DecodeWithOffsets
    (streaming = true); Err = the Go error return.  blockArray[0..3] after the
@@ -806,9 +972,9 @@ Definition extract_offsets (streaming : bool) (fuel : nat) (data : bytes) : out 
   match raw_list data with
   | None => Err
   | Some blk =>
-    if negb streaming && is_dijkstra_block blk then Val XUnmodelled
+    if negb streaming && is_dijkstra_block blk then dijkstra_offsets fuel data blk
     else if Nat.ltb (length blk) 3 then Val (XDone [] 0)
-    else if is_byron_block blk then Val XUnmodelled
+    else if is_byron_block blk then byron_offsets data blk
     else if Nat.ltb (length blk) 4 then Val (XDone [] 0)
     else
       d0 <- slice_from data 0 ;;                                   (* d.data[blockStart:] ; cborData *)
@@ -1182,7 +1348,6 @@ Definition check_case (c : case) : bool :=
   | COffsets streaming data res =>
       match extract_offsets streaming (S (length data)) data, res with
       | Val (XDone txs _), Some os => txs_eqb txs os
-      | Val XUnmodelled, _ => true
       | Err, None => true
       | _, _ => false end
   | CCbor data off len res =>
